@@ -203,6 +203,9 @@ pub fn encode_cost(m: &mut Beatmap) -> f64 {
                 .map_or((DifficultyPoint::DEFAULT_SLIDER_VELOCITY, true), |p| {
                     (p.slider_velocity, p.generate_ticks)
                 });
+            // the bound is computed for the range the format allows (slider velocity within [0.1, 10]): a library
+            // that lets a value outside it through must not be able to talk the monitor out of running the case
+            let sv = sv.clamp(0.1, 10.0);
             let mult = if version < 8 { sv.recip() } else { 1.0 };
             let tick_dist = if mode == GameMode::Osu {
                 if gen_ticks {
